@@ -199,7 +199,27 @@ def install(interp):
     def s_unpack(fmt, data):
         from . import floats
         return floats.struct_unpack(interp, fmt, data)
-    mod('struct', pack=Builtin(s_pack, 'struct.pack'), unpack=Builtin(s_unpack, 'struct.unpack'),
+    class _StructObj:
+        """struct.Struct(fmt): pack / unpack with the format fixed (the same assumed contract as struct.pack / struct.unpack)"""
+        def __init__(self, fmt):
+            self.fmt = fmt
+
+        def pyvc_getattr(self, it, name):
+            if name == 'pack':
+                return Builtin(lambda *a: s_pack(self.fmt, *a), 'Struct.pack')
+            if name == 'unpack':
+                return Builtin(lambda data: s_unpack(self.fmt, data), 'Struct.unpack')
+            if name == 'size':
+                return _struct.calcsize(self.fmt)
+            if name == 'format':
+                return self.fmt
+            from .interp import _MISSING
+            return _MISSING
+
+        def pyvc_truthy(self, it):
+            return True
+
+    mod('struct', pack=Builtin(s_pack, 'struct.pack'), unpack=Builtin(s_unpack, 'struct.unpack'), Struct=Builtin(_StructObj, 'struct.Struct'),
         error=B['struct.error'], calcsize=Builtin(_struct.calcsize, 'calcsize'))
 
     # ---- bitarray
